@@ -10,7 +10,12 @@
 use std::collections::HashMap;
 use std::collections::hash_map::Entry;
 use std::hash::Hash;
+#[cfg(not(rescrv_blue_verif_shuttle))]
 use std::sync::{Arc, Mutex, MutexGuard};
+#[cfg(rescrv_blue_verif_shuttle)]
+use std::sync::Arc;
+#[cfg(rescrv_blue_verif_shuttle)]
+use shuttle::sync::{Mutex, MutexGuard};
 
 /////////////////////////////////////////////// Value //////////////////////////////////////////////
 
